@@ -933,7 +933,11 @@ class DocutilsRenderer(RendererProtocol):
             # markdown-it encodes unsafe characters with percent-encoding
             # we want to get back the original, source input
             uri = self.md.normalizeLinkText(uri)
-            _parsed = urlparse(uri)
+            try:
+                _parsed = urlparse(uri)
+            except ValueError:
+                # e.g. "Invalid IPv6 URL" for `scheme://[x`
+                _parsed = urlparse("")
             parsed = {
                 "uri": uri,
                 "scheme": _parsed.scheme,
@@ -1052,7 +1056,17 @@ class DocutilsRenderer(RendererProtocol):
         explicit = (token.info != "auto") and bool(token.children)
 
         # split the href up into parts
-        uri_parts = urlparse(href)
+        try:
+            uri_parts = urlparse(href)
+        except ValueError as exc:
+            # e.g. "Invalid IPv6 URL" for `inv://[x`
+            self.create_warning(
+                f"Invalid inventory link {href!r}: {exc}",
+                MystWarnings.IREF_MISSING,
+                line=token_line(token, default=0),
+                append_to=self.current_node,
+            )
+            return
         target = uri_parts.fragment
         invs, domains, otypes = None, None, None
         if uri_parts.path:
